@@ -35,6 +35,7 @@ func checkC01(c *Check) {
 	c.Rule("C01.R2", "every call of the OK writer in the OIDC handler is justified: its token argument is either the non-nil, error-free result of SessionStore.GetTokenResponse(sid) found unexpired by the expiry test on the same object, or the non-nil result of the refresh helper (non-nil only after a token exchange answered OK and the ID-token validator accepted the merged token) that was stored with SetTokenResponse(sid, same object) without error; sid comes from the session cookie and is non-empty; logout and callback branches have been left.", 2)
 	c.Rule("C01.R3", "error discipline (static fault enumeration): for every call in the OIDC handler's functions and in the server's Check that yields an error, a status code, or the nil-able result of a store read / refresh, the result is bound and tested (or propagated), and from the blocks where the failure is known no OK writer, no token-binding store write and no positive return of the enclosing helper is reachable.", 25)
 	c.Rule("C01.R4", "expiry test shape: every `not expired` return of the expiry test is dominated by a successful parse of the stored ID token and by the false outcome of IDToken.Expiration().Before(clock.Now()); the access-token clause can only add `expired` outcomes.", 2)
+	c.Rule("C01.R6", "live session in the store: a session that has exceeded its absolute or idle timeout is not handed to the handler — memory store: every session read from the map passes the expiry predicate (absolute↔created, idle↔last-used) and creation time is written only at allocation; Redis: every successful operation refreshes the key's TTL from created+absolute / now+idle and creation time is HSETNX (the rules of C10.R1–R3).", 30)
 	c.Rule("C01.R5", "server loop: a handler construction or Process error returns no verdict; after Handler.Process the next filter is reached only through the true edge of codes.Code(resp.Status.Code) == OK on the same response; every non-nil response returned by Check is the handler-filled response, a deny(...) with a non-OK constant, or the shared allow under !mustTriggerCheck, an empty filter list of a matching chain, or AllowUnmatchedRequests.", 5)
 
 	if !requireRoles(c, "C01.R1", R, "OIDCProcess", "CheckEntry", "AllowFn", "DenyWriter", "TokenExchange", "IDTokenValidator",
@@ -46,6 +47,28 @@ func checkC01(c *Check) {
 	c01R3(c, R)
 	c01R4(c, R)
 	c01R5(c, R)
+	c01R6(c)
+}
+
+// c01R6: `live session` at the store level — the rules of C10 that make an expired session unavailable to
+// the handler (memory: expiry predicate on every access, creation time write-once; Redis: TTL refreshed on
+// every successful operation from created+absolute / now+idle), filed under C01.R6.
+func c01R6(c *Check) {
+	sr, missing := getStoreRoles(c.P)
+	if len(missing) > 0 {
+		for _, m := range missing {
+			c.Anchor("C01.R6", m, false)
+		}
+		return
+	}
+	before := len(c.Obls)
+	c10R1(c, sr)
+	c10R2(c, sr)
+	c10R3(c, sr)
+	for _, o := range c.Obls[before:] {
+		o.Key = strings.Replace(o.Key, o.Rule, "C01.R6", 1)
+		o.Rule = "C01.R6"
+	}
 }
 
 // ---------------------------------------------------------------------------------------------- R1
@@ -692,6 +715,9 @@ func c01R4(c *Check, R *Roles) {
 
 // ---------------------------------------------------------------------------------------------- R5
 
+// serverLoopRule: the rule id under which the shared server-loop obligations are filed (C01.R5; C08.R3 reuses them).
+var serverLoopRule = "C01.R5"
+
 func c01R5(c *Check, R *Roles) {
 	P := c.P
 	fn := R.CheckEntry
@@ -701,13 +727,13 @@ func c01R5(c *Check, R *Roles) {
 	for _, ci := range allCalls(fn) {
 		if cc, ok := ci.(*ssa.Call); ok && isCallTo(cc, idHandlerIface+".Process") {
 			if proc != nil {
-				c.Fail("C01.R5", "process-invoke", P.Pos(cc.Pos()), "more than one Handler.Process invocation in Check: the loop shape is not the analysed one")
+				c.Fail(serverLoopRule, "process-invoke", P.Pos(cc.Pos()), "more than one Handler.Process invocation in Check: the loop shape is not the analysed one")
 				return
 			}
 			proc = cc
 		}
 	}
-	if !c.Anchor("C01.R5", "Handler.Process invocation in Check", proc != nil) {
+	if !c.Anchor(serverLoopRule, "Handler.Process invocation in Check", proc != nil) {
 		return
 	}
 	respArg := resolveCell(stripConv(callArgs(proc)[2]))
@@ -798,10 +824,10 @@ func c01R5(c *Check, R *Roles) {
 			queue = append(queue, st{s, 0})
 		}
 	}
-	c.Obl(sawTest, "C01.R5", "status-test", P.Pos(proc.Pos()),
+	c.Obl(sawTest, serverLoopRule, "status-test", P.Pos(proc.Pos()),
 		"the handler's verdict is tested with codes.Code(resp.Status.Code) == OK on the response passed to Process",
 		"no test of resp.Status.Code against OK (on the response passed to Handler.Process) follows the Process call")
-	c.Obl(bad == nil, "C01.R5", "next-filter-only-after-OK", P.Pos(proc.Pos()),
+	c.Obl(bad == nil, serverLoopRule, "next-filter-only-after-OK", P.Pos(proc.Pos()),
 		"the next Handler.Process is reachable only through the OK edge of the status test",
 		"after a filter's Process, the next filter can be reached without the status having been found OK (a denial or error no longer ends the evaluation)")
 
@@ -816,7 +842,7 @@ func c01R5(c *Check, R *Roles) {
 		fs := ff.At(r)
 		v := r.Results[0]
 		if isNilConst(v) {
-			c.Pass("C01.R5", key, where, "returns no verdict (nil response): Envoy's failure policy decides")
+			c.Pass(serverLoopRule, key, where, "returns no verdict (nil response): Envoy's failure policy decides")
 			continue
 		}
 		leaves := Leaves(v, leafOpts{})
@@ -849,7 +875,7 @@ func c01R5(c *Check, R *Roles) {
 				why += "unclassified response value " + descDepth(l, 3) + "; "
 			}
 		}
-		c.Obl(okAll, "C01.R5", key, where, "returned response: "+why, "returned response not justified: "+why)
+		c.Obl(okAll, serverLoopRule, key, where, "returned response: "+why, "returned response not justified: "+why)
 	}
 }
 
@@ -866,9 +892,11 @@ func isLoadOfGlobal(v ssa.Value, g *ssa.Global) bool {
 func allowReturnJustified(P *Program, R *Roles, fn *ssa.Function, fs FactSet) (bool, string) {
 	for cond, pol := range fs {
 		// !mustTriggerCheck(...)
-		if call, _, ok := asCall(cond); ok {
-			if callee := call.Common().StaticCallee(); callee != nil && callee.Name() == "mustTriggerCheck" && !pol {
-				return true, "shared allow under !mustTriggerCheck"
+		if inner, neg := unwrapBool(cond); true {
+			if call, _, ok := asCall(inner); ok {
+				if callee := call.Common().StaticCallee(); callee != nil && callee.Name() == "mustTriggerCheck" && (pol == neg) {
+					return true, "shared allow under !mustTriggerCheck"
+				}
 			}
 		}
 		// AllowUnmatchedRequests == true
@@ -897,9 +925,11 @@ func allowReturnJustified(P *Program, R *Roles, fn *ssa.Function, fs FactSet) (b
 				}
 			}
 		}
-		if call, _, ok := asCall(cond); ok {
-			if callee := call.Common().StaticCallee(); callee != nil && callee.Name() == "matches" && pol {
-				matched = true
+		if inner, neg := unwrapBool(cond); true {
+			if call, _, ok := asCall(inner); ok {
+				if callee := call.Common().StaticCallee(); callee != nil && callee.Name() == "matches" && (pol != neg) {
+					matched = true
+				}
 			}
 		}
 	}
